@@ -12,6 +12,12 @@ NOT_APPLICABLE = {
 }
 
 CLAIMS = {
+    "C05": {
+        "text": "Decides two protocol clauses of the Grid lazy representation, not the lattice arithmetic: (R5.1) flag typestate over every CFG path — after a value-changing edit of a description (affine image/preimage, insertion, permutation, concatenation, removal of dimensions: the kinds for which every site of the confirmed tree does so) no path leaves that description's `minimized` claim standing; (R5.3/R5.4) for a class whose observers hand out a description member as it is when the object is marked empty (Grid), the copy constructor distinguishes the same source states as operator= (notably marked_empty, which installs the canonical empty representation). Necessary for 'the congruence and generator descriptions denote the same set whatever the history' and for copies to be the same value. The `up to date` pairing of the two descriptions, dimension changes that maintain the triangular form through dim_kinds, Hermite reduction, conversion, relation_with, frequency and difference are NOT decided.",
+        "design_ref": "DESIGN.md §3 C05",
+        "note": "write kinds outside the armed set are counted in the evidence but not judged; lazy-update members are assumed value-preserving",
+        "technique": "flag typestate over clang CFG x boolean-local environment with callee summaries (armed write kinds inferred by unanimous majority, then frozen); sibling-agreement rule on copy operations",
+    },
     "C19": {
         "text": "Decides signal-safety discipline and dispatch structure, not timing: (R19.1) outside the handler every use of the handler-shared list/timer state happens between in_critical_section = true and = false on every path; (R19.2) Handler::act() is invoked only by the two dispatch loops and is followed on every path by flagging the element expired and erasing it, and destructors deregister only watchers that have not fired; (R19.4) the weight watcher fires while !less_than(current, deadline); (R19.5) each comparison operator of the timer's Time type reads both operands; (R19.6) every set_timer() — which overwrites the record of the interval being timed — is preceded by an update of time_so_far. Necessary for 'at most once', 'never early' and 'promptly' under signals arriving at any point. The deadline arithmetic itself, promptness bounds and delivery order are numeric over timer values and NOT decided. One known finding (reschedule() loses the elapsed interval) is listed in known_findings.json.",
         "design_ref": "DESIGN.md §3 C19",
